@@ -245,4 +245,20 @@ func init() {
 	})
 }
 
+func init() {
+	replayDrivers = append(replayDrivers, replayDriver{
+		match: func(n string) bool { return strings.Contains(n, "checkAuth#C06.kind") },
+		run: func(r *Report, o *Obligation, sr *SolveResult) ReplayResult {
+			obs := parseObserved(sr.Model, o.Observe)
+			req := int64(0)
+			if v, ok := smtBVToBig(obs["param:requiredAuthType"]); ok && v.IsInt64() {
+				req = v.Int64() & 0xFFFF
+			}
+			in := map[string]string{"required": fmt.Sprint(req)}
+			out, conf := goReplay(r, "cmd/keymasterd", "keymasterd_replay_test.go", "TestVerifReplayCheckAuthKind", in)
+			return ReplayResult{Confirmed: conf, Summary: replaySummary(out), Inputs: in, Output: truncate(out, 4000), Driver: "TestVerifReplayCheckAuthKind"}
+		},
+	})
+}
+
 var intRe = regexp.MustCompile(`\(?-?[0-9]+\)?`)
